@@ -91,13 +91,22 @@ pub fn seed_group_of_four() -> (String, Vec<Op>) {
     )
 }
 
+/// An edge from a surviving vertex to a collected one: two groups, a cross-group edge (which
+/// merges nothing), the target's group collected. kids()/exports/inspect/slice/clone/save see it.
+pub fn seed_dangling_edge() -> (String, Vec<Op>) {
+    (
+        "a surviving vertex with an edge to a collected vertex (cross-group edge, target's group collected)".to_string(),
+        vec![Op::Add(0), Op::Add(1), Op::Add(2), Op::Add(3), Op::Bind(0, 1, 0), Op::Bind(2, 3, 0), Op::Bind(1, 2, 0), Op::Put(3, 0), Op::Put(0, 0), Op::Data(3)],
+    )
+}
+
 pub fn seed_reloaded() -> (String, Vec<Op>) {
     ("a group with unread data, reloaded from disk".to_string(), vec![Op::Add(1), Op::Add(2), Op::Bind(1, 2, 0), Op::Put(2, 0), Op::Add(3), Op::Put(3, 0), Op::ReloadSwap])
 }
 
 fn seeded5(prop: &'static str, name: &str, d: usize) -> HxCfg {
     let mut c = HxCfg::new(prop, name, 2, 5, &[0, 1, 2, 3, 4], &[0], &[0]);
-    c.seeds = vec![seed_two_groups_and_bystander(), seed_recycled(), seed_reloaded(), seed_group_of_four()];
+    c.seeds = vec![seed_two_groups_and_bystander(), seed_recycled(), seed_reloaded(), seed_group_of_four(), seed_dangling_edge()];
     c.max_depth = d;
     c
 }
@@ -111,6 +120,8 @@ fn gc_plan(prop: &'static str, tier: &str) -> Vec<HxCfg> {
             drain(depth(a4(prop, "4 ids"), 7)),
             drain(depth(a5(prop, "ids 1..4 in 5 slots"), 6)),
             drain(seeded5(prop, "5 ids from seeds", 3)),
+            drain(HxCfg::new(prop, "3 ids, heap-encoded data only", 2, 3, &[0, 1, 2], &[0], &[1])),
+            drain(depth(a256(prop, "ids 0,5,254,255 in 256 slots, Sodg<16>"), 4)),
         ]
     } else {
         vec![
@@ -137,11 +148,13 @@ pub fn hx_plan(prop: &'static str, tier: &str) -> Vec<HxCfg> {
                 v.push(depth(HxCfg::new(prop, "3 ids, 2 labels, 2 data", 2, 3, &[0, 1, 2], &[0, 3], &[0, 1]), 7));
                 v.push(all_ops(a3(prop, "3 ids, all ops")));
                 v.push(depth(a4(prop, "4 ids"), 6));
+                v.push(seeded5(prop, "5 ids from seeds", 3));
             } else {
                 v.push(wall(depth(c, 10), 900));
                 v.push(wall(all_ops(a3x(prop, "3 ids, 2 labels, 2 data, all ops")), 1500));
                 v.push(wall(a4(prop, "4 ids"), 1500));
                 v.push(wall(depth(a256(prop, "ids 0,5,254,255 in 256 slots, Sodg<16>"), 7), 900));
+                v.push(wall(seeded5(prop, "5 ids from seeds", 5), 600));
             }
             v
         }
@@ -222,6 +235,7 @@ pub fn hx_plan(prop: &'static str, tier: &str) -> Vec<HxCfg> {
                     p(depth(HxCfg::new(prop, "3 ids, 3 label kinds, 3 data", 3, 3, &[0, 1, 2], &[0, 1, 2], &[0, 1, 2]), 5)),
                     p(depth(a4(prop, "4 ids"), 6)),
                     p(depth(HxCfg::new(prop, "ids 0,2,5 in 7 slots (never-added slots in between)", 2, 7, &[0, 2, 5], &[0, 3], &[3]), 5)),
+                    p(seeded5(prop, "5 ids from seeds", 2)),
                 ]
             } else {
                 vec![
@@ -230,6 +244,7 @@ pub fn hx_plan(prop: &'static str, tier: &str) -> Vec<HxCfg> {
                     wall(p(depth(HxCfg::new(prop, "3 ids, 3 label kinds, 3 data", 3, 3, &[0, 1, 2], &[0, 1, 2], &[0, 1, 2]), 7)), 1200),
                     wall(p(depth(a4(prop, "4 ids"), 9)), 1500),
                     wall(p(depth(HxCfg::new(prop, "ids 0,2,5 in 7 slots (never-added slots in between)", 2, 7, &[0, 2, 5], &[0, 3], &[3]), 7)), 900),
+                    wall(p(seeded5(prop, "5 ids from seeds", 4)), 900),
                 ]
             }
         }
@@ -305,6 +320,15 @@ pub fn run_hx_prop(prop: &'static str, tier: &str) -> Outcome {
                 Ok(true) => {
                     if !failures.iter().any(|f: &Failure| f.signature == format!("hx:{}", v.kind)) {
                         failures.push(report::hx_failure(cfg, v));
+                    }
+                }
+                Ok(false) if prop == "C19" => {
+                    // the comparison came out differently when it was made again: that IS run-to-run nondeterminism
+                    let mut v2 = v.clone();
+                    v2.kind = "answer-changes-from-run-to-run".to_string();
+                    v2.detail = format!("{} - and when the same history was replayed once more the answers agreed: the result is not deterministic", v.detail);
+                    if !failures.iter().any(|f: &Failure| f.signature == "hx:answer-changes-from-run-to-run") {
+                        failures.push(report::hx_failure(cfg, &v2));
                     }
                 }
                 Ok(false) => machinery.push(format!("a {} finding did not reproduce when replayed from scratch: {}", v.kind, crate::model::hist_text(&v.history))),
